@@ -2,31 +2,38 @@
 # usage: tools/tryseed.sh <seed dir with patch.diff, zz_demo_test.go, demo_pkg.txt> <PROPERTY ID> [tier]
 # 1. validates the seeded change in a scratch worktree of /repo (builds, suite passes,
 #    demo fails with the change and passes without);
-# 2. applies it to /repo, runs the check, and undoes it.
+# 2. applies it to /repo, runs the check, and undoes it (with TRYSEED_SCRATCH=1: runs the
+#    check against the scratch worktree through ./check's VERIF_REPO override instead).
 export GOFLAGS=-mod=mod GOPROXY=off GOSUMDB=off GOTOOLCHAIN=local
 dir="$(realpath "$1")"; id="$2"; tier="${3:-quick}"
 pkg="$(cat "$dir/demo_pkg.txt" 2>/dev/null | tr -d ' \n')"; [ -z "$pkg" ] && pkg="."
 wt="$(mktemp -d /tmp/tryseed.XXXXXX)"
 git -C /repo worktree add --detach "$wt" HEAD >/dev/null 2>&1 || { echo "cannot create worktree"; exit 2; }
-cleanup() { git -C /repo worktree remove --force "$wt" >/dev/null 2>&1; rm -rf "$wt"; }
+cleanup() { git -C /repo worktree remove --force "$wt" >/dev/null 2>&1; rm -rf "$wt" "$wt.err" "$wt.out"; }
 trap cleanup EXIT
 cd "$wt"
-if ! git apply "$dir/patch.diff" 2>/tmp/tryseed.err; then echo "SEED-INVALID: patch does not apply: $(head -2 /tmp/tryseed.err)"; exit 3; fi
-if ! go build ./... >/tmp/tryseed.err 2>&1; then echo "SEED-INVALID: does not build"; head -5 /tmp/tryseed.err; exit 3; fi
-if ! go test -vet=off -count=1 ./... >/tmp/tryseed.err 2>&1; then echo "SEED-INVALID: existing tests fail with the change"; grep -m3 -- "--- FAIL" /tmp/tryseed.err; exit 3; fi
+if ! git apply "$dir/patch.diff" 2>"$wt.err"; then echo "SEED-INVALID: patch does not apply: $(head -2 "$wt.err")"; exit 3; fi
+if ! go build ./... >"$wt.err" 2>&1; then echo "SEED-INVALID: does not build"; head -5 "$wt.err"; exit 3; fi
+if ! go test -vet=off -count=1 ./... >"$wt.err" 2>&1; then echo "SEED-INVALID: existing tests fail with the change"; grep -m3 -- "--- FAIL" "$wt.err"; exit 3; fi
 cp "$dir/zz_demo_test.go" "$wt/$pkg/zz_demo_test.go"
-if go test -vet=off -count=1 -run 'TestDemo' "./$pkg" >/tmp/tryseed.err 2>&1; then echo "SEED-INVALID: demo passes WITH the change"; exit 3; fi
+if go test -vet=off -count=1 -run 'TestDemo' "./$pkg" >"$wt.err" 2>&1; then echo "SEED-INVALID: demo passes WITH the change"; exit 3; fi
 git apply -R "$dir/patch.diff"
-if ! go test -vet=off -count=1 -run 'TestDemo' "./$pkg" >/tmp/tryseed.err 2>&1; then echo "SEED-INVALID: demo fails WITHOUT the change"; tail -5 /tmp/tryseed.err; exit 3; fi
+if ! go test -vet=off -count=1 -run 'TestDemo' "./$pkg" >"$wt.err" 2>&1; then echo "SEED-INVALID: demo fails WITHOUT the change"; tail -5 "$wt.err"; exit 3; fi
 echo "SEED-VALID: builds, suite passes, demo fails with / passes without the change"
 cd /verif
-if [ -n "$(git -C /repo status --porcelain)" ]; then echo "/repo is not clean"; exit 2; fi
-git -C /repo apply "$dir/patch.diff" || exit 2
 start=$(date +%s)
-./check "$id" "$tier" > /tmp/tryseed.out 2>&1; rc=$?
+if [ -n "$TRYSEED_SCRATCH" ]; then
+  # while background runs use /repo: check against the scratch worktree
+  rm -f "$wt/$pkg/zz_demo_test.go"; git -C "$wt" apply "$dir/patch.diff" || exit 2
+  VERIF_REPO="$wt" ./check "$id" "$tier" > "$wt.out" 2>&1; rc=$?
+else
+  if [ -n "$(git -C /repo status --porcelain)" ]; then echo "/repo is not clean"; exit 2; fi
+  git -C /repo apply "$dir/patch.diff" || exit 2
+  ./check "$id" "$tier" > "$wt.out" 2>&1; rc=$?
+  git -C /repo checkout -- .
+fi
 end=$(date +%s)
-git -C /repo checkout -- .
 echo "CHECK $id $tier exit=$rc wall=$((end-start))s"
-grep -m2 -A2 "VIOLATION" /tmp/tryseed.out | cut -c1-300
-[ $rc -eq 2 ] && tail -15 /tmp/tryseed.out | cut -c1-300
+grep -m2 -A2 "VIOLATION" "$wt.out" | cut -c1-300
+[ $rc -eq 2 ] && tail -15 "$wt.out" | cut -c1-300
 exit 0
